@@ -4,7 +4,7 @@
 //   RUN <id> [first-op-index]                    start of a run (stream slots are reset)
 //   CFG <slot> <budget> <mode> <state> <flags>   configure stream slot (sink fault as an explicit op)
 //   OP <name> <seed> <p0> <p1> <slot> <fault> <a> <b> [value-class]
-//        fault: none | alloc k | allocfrom k | alloceach | sink budget mode | sinkeach
+//        fault: none | alloc k | allocfrom k | alloceach | sink budget mode | sinkeach | cold k persistent
 //   END
 #include "c20_rt.hpp"
 
@@ -276,6 +276,28 @@ void execute(const OpEntry& e, std::uint64_t seed, long p0, long p1, int slot, c
   Ctx c;
   c.vclass = vc;
   bool stream_op = (e.flags & vrt::kUsesStream) != 0;
+  if (fault == "cold") {
+    // cold start: no warm-up and no E0 -- the very first execution in this process already runs with the
+    // fa-th allocation failing, so lazily initialised state (caches, reusable buffers, function-local
+    // statics) is first filled under the fault.  Only meaningful as the first op of a fresh worker.
+    g_phase = "cold";
+    vrt::g_alloc = vrt::AllocState{};
+    vrt::g_alloc.fail_at = fa;
+    vrt::g_alloc.fail_from = fb != 0;
+    vrt::g_armed = true;
+    Scratch s;
+    Outcome r = run_once(e, c, seed, p0, p1, &s.os);
+    vrt::g_armed = false;
+    ++st.execs;
+    long fired = vrt::g_alloc.fired;
+    if (fired > 0) ++st.fired; else ++st.not_fired;
+    char fdesc[64];
+    std::snprintf(fdesc, sizeof fdesc, "cold:%ld:%ld", fa, fb);
+    check_outcome(e, r, fired > 0, fdesc, st);
+    g_phase = "-";
+    say("R %ld %ld ok n=%ld fired=%ld h0=%016llx len=%ld nf=0\n", g_run, g_opidx, vrt::g_alloc.count, fired, static_cast<unsigned long long>(r.h), r.len);
+    return;
+  }
   // warm-up: libstdc++ initialises some facilities lazily on first use (locale facets ...), which
   // allocates; run once uncounted so that allocation indices do not depend on process history
   g_phase = "warm";
